@@ -12,6 +12,7 @@ import Hts.Lemmas.ReaderLTSTerm
 import Hts.Lemmas.ReaderLTSExact
 import Hts.Lemmas.ReaderLTSFile
 import Hts.Lemmas.ReaderOverLTSCall
+import Hts.Lemmas.Reader64
 namespace Hts.Props.C02
 open Hts.Model.Bgzf Hts.Spec.Flat
 
@@ -23,6 +24,19 @@ theorem read_refines_flat (F : File) (hwf : WF F) (r0 : Reader) (h0 : Reader.new
     (ops : List Op) (hv : ValidOps (layoutOf F) ops) :
     (r0.run ops).map Reader.observe = (run (flatOf F) init ops).map observeFlat :=
   run_refines hwf ops r0 init (sim_new h0) hv
+
+/-- **The repaired `txOffset()` (fixes/C02-1).**  `Model/BgzfReader64.lean` is the reader model with `txOffset()` as
+repaired: behind the last byte of a block holding 65536 bytes (where the 16-bit in-block offset has wrapped) it is
+`(NextBase, 0)`.  On every well-formed file (payloads below 65536 bytes) the repaired reader is the reader of
+`read_refines_flat` for every history, valid or not — output and reader state per operation — so it refines the flat
+specification too.  A member of exactly 65536 payload bytes is outside `WF` and outside every theorem of this file;
+there `run64` is the executable model the implementation is compared with. -/
+theorem repaired_reader_refines_flat (F : File) (hwf : WF F) (r0 : Reader) (h0 : Reader.new F = .ok r0)
+    (ops : List Op) (hv : ValidOps (layoutOf F) ops) :
+    r0.run64 ops = r0.run ops ∧
+    (r0.run64 ops).map Reader.observe = (run (flatOf F) init ops).map observeFlat := by
+  have h := run64_eq_run ops r0 (small_new (fun m hm => (hwf m hm).2) h0)
+  exact ⟨h, by rw [h]; exact read_refines_flat F hwf r0 h0 ops hv⟩
 
 /-- The only error a valid history ever sees is `io.EOF`: the model's fuel bounds are never hit, nothing
 panics, no seek fails. -/
